@@ -83,10 +83,10 @@ func goEnv() []string {
 }
 
 type build struct {
-	dir    string
-	bin    string
+	dir     string
+	bin     string
 	binRace string
-	sites  []instr.Site
+	sites   []instr.Site
 }
 
 // prepare instruments repo and builds the engine test binary.
@@ -282,18 +282,32 @@ func check(id, tier string) int {
 		go func(w int) {
 			defer wg.Done()
 			bin := b.bin
+			from, n, wid := w, per, w
+		again:
 			args := []string{"-wsim.prop", id, "-wsim.tier", tier, "-wsim.seed", fmt.Sprint(seed),
-				"-wsim.from", fmt.Sprint(w), "-wsim.stride", fmt.Sprint(W), "-wsim.n", fmt.Sprint(per),
-				"-wsim.out", outDir, "-wsim.worker", fmt.Sprint(w), "-wsim.budget", fmt.Sprint(tc.budget),
+				"-wsim.from", fmt.Sprint(from), "-wsim.stride", fmt.Sprint(W), "-wsim.n", fmt.Sprint(n),
+				"-wsim.out", outDir, "-wsim.worker", fmt.Sprint(wid), "-wsim.budget", fmt.Sprint(tc.budget),
 				"-wsim.sites", filepath.Join(b.dir, "sites.json")}
 			out, err, timedOut := runEngine(bin, time.Duration(tc.budget*2+120)*time.Second, args...)
-			outs[w] = out
+			outs[w] += out
+			if err == nil && !timedOut {
+				// a worker that met a deadlocked run stops there (goroutines blocked
+				// for good stay behind in its process): the rest of its share runs
+				// in a new process
+				var st struct {
+					ResumeAt int `json:"resume_at"`
+				}
+				if sb, rerr := os.ReadFile(filepath.Join(outDir, fmt.Sprintf("stats-%d.json", wid))); rerr == nil && json.Unmarshal(sb, &st) == nil && st.ResumeAt > 0 && st.ResumeAt < n && wid < 400000 {
+					from, n, wid = from+st.ResumeAt*W, n-st.ResumeAt, wid+1000
+					goto again
+				}
+			}
 			if timedOut {
 				infra[w] = fmt.Sprintf("worker %d exceeded its watchdog", w)
 			} else if err != nil && !strings.Contains(out, "HARNESS-PANIC") && workerDied(out, err) {
 				// the process was killed by the runtime or the kernel while
 				// running the journaled case: attribute it to that case
-				jb, jerr := os.ReadFile(filepath.Join(outDir, fmt.Sprintf("journal-%d.json", w)))
+				jb, jerr := os.ReadFile(filepath.Join(outDir, fmt.Sprintf("journal-%d.json", wid)))
 				var tr trace
 				if jerr != nil || json.Unmarshal(jb, &tr) != nil {
 					infra[w] = fmt.Sprintf("worker %d died without a journal: %v\n%s", w, err, tail(out, 20))
@@ -305,7 +319,7 @@ func check(id, tier string) int {
 				died[w] = true
 			} else if err != nil && !strings.Contains(out, "FAIL prop=") {
 				infra[w] = fmt.Sprintf("worker %d: %v\n%s", w, err, tail(out, 40))
-			} else if _, serr := os.Stat(filepath.Join(outDir, fmt.Sprintf("stats-%d.json", w))); serr != nil && !died[w] {
+			} else if _, serr := os.Stat(filepath.Join(outDir, fmt.Sprintf("stats-%d.json", wid))); serr != nil && !died[w] {
 				infra[w] = fmt.Sprintf("worker %d wrote no statistics: %v\n%s", w, err, tail(out, 40))
 			}
 		}(w)
@@ -617,32 +631,32 @@ func writeEvidence(id, tier string, seed uint64, cfg propCfg, agg *workerStats, 
 		perHour = float64(agg.Runs) / exploreWall * 3600
 	}
 	cov := map[string]interface{}{
-		"evaluations":         agg.Runs,
-		"distinct_nontrivial": nontr,
-		"rule":                cfg.rule,
-		"samples":             samples,
-		"operations":          agg.Ops,
-		"simulated_seconds":   agg.SimSeconds,
-		"runs_per_hour":       int64(perHour),
-		"faults_fired":        agg.Faults,
-		"probes":              agg.Probes,
-		"not_judged":          agg.Skipped,
-		"distinct_states":     states,
+		"evaluations":            agg.Runs,
+		"distinct_nontrivial":    nontr,
+		"rule":                   cfg.rule,
+		"samples":                samples,
+		"operations":             agg.Ops,
+		"simulated_seconds":      agg.SimSeconds,
+		"runs_per_hour":          int64(perHour),
+		"faults_fired":           agg.Faults,
+		"probes":                 agg.Probes,
+		"not_judged":             agg.Skipped,
+		"distinct_states":        states,
 		"distinct_interleavings": inter,
-		"yield_points_passed": agg.Yields,
-		"scheduling_decisions": agg.Decisions,
-		"yield_sites_total":   len(sites),
-		"yield_sites_reached": covered,
+		"yield_points_passed":    agg.Yields,
+		"scheduling_decisions":   agg.Decisions,
+		"yield_sites_total":      len(sites),
+		"yield_sites_reached":    covered,
 		"known_findings_matched": agg.Known,
-		"seeds":               fmt.Sprintf("VERIF_SEED=%d, run i uses splitmix64(VERIF_SEED, property, i), i in [0,%d)", seed, agg.Runs),
+		"seeds":                  fmt.Sprintf("VERIF_SEED=%d, run i uses splitmix64(VERIF_SEED, property, i), i in [0,%d)", seed, agg.Runs),
 		"components": map[string]string{
 			"whispertool library and cmd package": "real code (instrumented overlay of the tree under test)",
-			"clock":       "simulated (testing/synctest bubble)",
-			"scheduler":   "simulated (seeded, yield points at every statement)",
-			"disk":        "real files on tmpfs; crashes and corruption simulated",
-			"flock":       "real kernel lock, simulated waiting",
-			"network":     "real net/http client and server over an in-memory pipe",
-			"filebuffer":  "real code, uninstrumented (outside /repo)",
+			"clock":                               "simulated (testing/synctest bubble)",
+			"scheduler":                           "simulated (seeded, yield points at every statement)",
+			"disk":                                "real files on tmpfs; crashes and corruption simulated",
+			"flock":                               "real kernel lock, simulated waiting",
+			"network":                             "real net/http client and server over an in-memory pipe",
+			"filebuffer":                          "real code, uninstrumented (outside /repo)",
 		},
 		"exhaustive": false,
 	}
